@@ -67,7 +67,7 @@ class Harness:
     def __init__(self, name, module, functions, bound, kernel="", assumptions=(),
                  stubs=(), tiers=("quick", "thorough"), timeout_s=900, mem_gb=12,
                  cbmc_args=(), required=True, package="sudachi", outside=(),
-                 shape=None, fs_array=False, finding=None, replay_alt=None):
+                 shape=None, fs_array=False, finding=None, replay_alt=None, rust_mod=None):
         self.name = name
         self.module = module
         self.functions = list(functions)
@@ -89,6 +89,8 @@ class Harness:
         # name of a sibling harness with the same assertions at a smaller bound, used only to obtain a native replay
         # when Kani's concrete-playback run of this harness exceeds its memory cap (playback disables formula slicing)
         self.replay_alt = replay_alt
+        # name of the harness module inside the hooked file (default verif_<property>)
+        self.rust_mod = rust_mod
         self.result = None
 
 
@@ -296,10 +298,11 @@ class Ctx:
         return cmd
 
     def full_name(self, h):
+        rm = h.rust_mod or "verif_%s" % self.prop.lower()
         if h.package == "sudachi-cli":
-            return "verif_%s::%s" % (self.prop.lower(), h.name)
+            return "%s::%s" % (rm, h.name)
         mod = h.module.replace("__mod", "").replace("__", "::")
-        return "%s::verif_%s::%s" % (mod, self.prop.lower(), h.name)
+        return "%s::%s::%s" % (mod, rm, h.name)
 
     # native generator step (tables produced by the repository's own builder code)
     def run_gen(self, args, timeout=900, verif_cfg=False):
